@@ -36,6 +36,7 @@ import (
 	"google.golang.org/grpc/encoding"
 	_ "google.golang.org/grpc/encoding/gzip" // grpc-go client side gzip (other engines register it as well)
 	"google.golang.org/grpc/metadata"
+	"google.golang.org/grpc/stats"
 	"google.golang.org/grpc/status"
 	"google.golang.org/protobuf/encoding/protojson"
 	"google.golang.org/protobuf/proto"
@@ -138,6 +139,8 @@ type Rec struct {
 	Done   bool // the handler has returned
 	Ran    bool
 	MD     metadata.MD
+	IMD    metadata.MD // what a recording unary interceptor saw (option "icept")
+	ISeen  bool
 	Sent   int
 	OpErrs []string
 }
@@ -253,11 +256,46 @@ func muxOptions(opt string) ([]larking.MuxOption, error) {
 	return nil, fmt.Errorf("unknown mux option set %q", opt)
 }
 
+// noopStats is a stats handler that does nothing.
+type noopStats struct{}
+
+func (noopStats) TagRPC(ctx context.Context, _ *stats.RPCTagInfo) context.Context   { return ctx }
+func (noopStats) HandleRPC(context.Context, stats.RPCStats)                         {}
+func (noopStats) TagConn(ctx context.Context, _ *stats.ConnTagInfo) context.Context { return ctx }
+func (noopStats) HandleConn(context.Context, stats.ConnStats)                       {}
+
+// observerOptions are mux options that must not change what a handler sees:
+// a no-op stats handler ("stats"), pass-through interceptors that record the
+// metadata they see ("icept"), or both ("stats+icept").
+func (e *Env) observerOptions(opt string) []larking.MuxOption {
+	var out []larking.MuxOption
+	if strings.Contains(opt, "stats") {
+		out = append(out, larking.StatsOption(noopStats{}))
+	}
+	if strings.Contains(opt, "icept") {
+		out = append(out,
+			larking.UnaryServerInterceptorOption(func(ctx context.Context, req interface{}, _ *grpc.UnaryServerInfo, h grpc.UnaryHandler) (interface{}, error) {
+				if m, ok := req.(proto.Message); ok {
+					md, _ := metadata.FromIncomingContext(ctx)
+					e.record(chunkID(m), func(r *Rec) { r.IMD = md.Copy(); r.ISeen = true })
+				}
+				return h(ctx, req)
+			}),
+			larking.StreamServerInterceptorOption(func(srv interface{}, ss grpc.ServerStream, _ *grpc.StreamServerInfo, h grpc.StreamHandler) error {
+				return h(srv, ss)
+			}))
+	}
+	return out
+}
+
 // makeSide builds the mux for a target with the given options, its server
 // and its grpc-go client.
 func (e *Env) makeSide(target, opt string) (*side, error) {
-	opts, err := muxOptions(opt)
-	if err != nil {
+	var opts []larking.MuxOption
+	var err error
+	if strings.HasPrefix(opt, "stats") || strings.HasPrefix(opt, "icept") {
+		opts = e.observerOptions(opt)
+	} else if opts, err = muxOptions(opt); err != nil {
 		return nil, err
 	}
 	var mux *larking.Mux
@@ -701,6 +739,12 @@ type Case struct {
 	Route  string `json:"route,omitempty"`
 	ReqCT  string `json:"req_ct,omitempty"`
 	Accept string `json:"accept,omitempty"`
+	// AcceptEnc: Accept-Encoding request header of HTTP / Twirp cases ("" = absent).
+	AcceptEnc string `json:"accept_enc,omitempty"`
+	// WSCtl: control frames the WebSocket client sends: "" none | "ping-before"
+	// | "pong-before" | "ping-after" | "pong-after" | "ping-both" (before and
+	// after its data frame).
+	WSCtl string `json:"ws_ctl,omitempty"`
 	// PreCT (in-process HTTP shape cases): the request is preceded, on the
 	// SAME fresh mux, by a successful request of another client with the same
 	// Accept value and this Content-Type; the response is compared with the
@@ -752,6 +796,7 @@ type Obs struct {
 	WebErr       string   // framing problem of a gRPC-web body
 	WebKeys      []string // keys of the gRPC-web trailer frame as sent ("?malformed" for a line without colon)
 	SeqDiff      string   // the response differs from the one the same request gets on a fresh mux
+	EncErr       string   // the body does not decode per the response Content-Encoding
 	Stuck        string   // a watchdog fired while the request was inside larking: goroutine excerpt
 	// client-visible metadata, lower-cased keys; -bin values still encoded
 	// for raw clients, decoded for grpc-go (BinDecoded)
@@ -862,6 +907,20 @@ func (e *Env) run(c *Case) (*Obs, Rec) {
 	default:
 		o = &Obs{Err: "unknown protocol " + c.Proto}
 	}
+	if (strings.HasPrefix(c.Proto, "http") || strings.HasPrefix(c.Proto, "twirp")) && o.Hdr != nil {
+		// the client decodes the body per the response's Content-Encoding
+		switch ce := strings.ToLower(strings.TrimSpace(o.Hdr.Get("Content-Encoding"))); ce {
+		case "", "identity":
+		case "gzip":
+			if b, err := wire.Gunzip(o.Body); err != nil {
+				o.EncErr = fmt.Sprintf("Content-Encoding gzip, but the %d-byte body does not decompress: %v", len(o.Body), err)
+			} else {
+				o.Body = b
+			}
+		default:
+			o.EncErr = "unknown Content-Encoding " + strconv.QuoteToASCII(ce)
+		}
+	}
 	if c.realSocket() {
 		normal := o.Err == ""
 		switch c.Proto {
@@ -903,6 +962,9 @@ func (c *Case) httpHeader(ct string) http.Header {
 	h := http.Header{"Content-Type": {ct}, "Accept": {ct}}
 	if strings.HasPrefix(c.Proto, "twirp") {
 		h = http.Header{"Content-Type": {ct}, "Twirp-Version": {"v8.1.3"}}
+	}
+	if c.AcceptEnc != "" {
+		h.Set("Accept-Encoding", c.AcceptEnc)
 	}
 	return h
 }
@@ -1469,10 +1531,22 @@ func (e *Env) doWS(c *Case, id string) *Obs {
 	defer conn.Close()
 	conn.SetDeadline(time.Now().Add(sockTimeout))
 	rd := bufio.NewReader(conn)
+	ctl := func(when string) {
+		if !strings.HasSuffix(c.WSCtl, when) && !strings.HasSuffix(c.WSCtl, "both") {
+			return
+		}
+		f := ws.NewPingFrame([]byte("verif"))
+		if strings.HasPrefix(c.WSCtl, "pong") {
+			f = ws.NewPongFrame([]byte("unsolicited"))
+		}
+		conn.Write(ws.MustCompileFrame(ws.MaskFrame(f))) //nolint
+	}
+	ctl("before")
 	if err := wsutil.WriteClientText(conn, []byte(`{}`)); err != nil {
 		o.Err = "websocket write: " + err.Error()
 		return o
 	}
+	ctl("after")
 	o.HTTP = 101
 	for {
 		hd, err := ws.ReadHeader(rd)
